@@ -249,6 +249,31 @@ def coding_lines(rng, thorough):
     return L
 
 
+def free_build_lines(rng, thorough):
+    """builder calls whose host text the parser cannot read back as the host (Uri.tla BuildFree): bare IPv6 literals, '@' or
+    brackets in odd places - with every port width (none, 1..10 digits), with and without path / query string / param list,
+    so that whatever the builder reserves for one piece is used up by the others"""
+    hosts = [b"::1", b"::", b"fe80::1", b"2001:db8::8:800:200c:417a", b"1:2:3:4:5:6:7:8", b"::ffff:192.0.2.1", b"a:b", b"u@h", b"[::1", b"::1]",
+             b"h]", b"[h", b"a b", b"h\x00h", b"\xe9", b"h#f"]
+    ports = ["0", "1", "80", "443", "8080", "65535", "100000", "1234567", "12345678", "123456789", "1000000000", "4294967295"]
+    L = []
+    for h in hosts:
+        for port in ports if thorough else rng.sample(ports, 5) + ["0", "4294967295"]:
+            sch = rng.choice([b"", b"s", b"https", b"a+b"])
+            path = rng.choice([b"", b"/", b"/p", b"/a/b/c", b"/" + b"x" * rng.randint(1, 40)])
+            head = "BUILDF %s %s 0 %s %s" % (hx(sch, bool(sch)), hx(h), port, hx(path))
+            r = rng.random()
+            if r < 0.25:
+                L.append(head + " N")
+            elif r < 0.55:
+                L.append(head + " S " + hx(rng.choice([b"q", b"k=v", b"a=b&c=d", b"x" * rng.randint(1, 30)])))
+            else:
+                n = rng.choice([0, 1, 1, 2, 3])
+                kv = [(rstr(rng, b"abkxyz09", 0, 6), rstr(rng, b"abvxyz09/:", 0, 8)) for _ in range(n)]
+                L.append(head + " L %d" % n + "".join(" %s %s" % (hx(k), hx(v)) for k, v in kv))
+    return L
+
+
 # ------------------------------------------------------------------------------------------------ run
 def bfs_scripts(ctx, cfg):
     """every component combination of a (small) Gen configuration: plain BFS, each finished record is printed once"""
@@ -319,6 +344,9 @@ def run(ctx):
             execs.append(ex)
     lines = coding_lines(rng, thorough)
     execs += [["RESET"] + lines[i:i + 70] for i in range(0, len(lines), 70)]
+    flines = free_build_lines(rng, thorough)
+    execs += [["RESET"] + flines[i:i + 40] for i in range(0, len(flines), 40)]
+    ctx.extra["combinations"]["builder_free_hosts"] = len(flines)
     for ex in execs:
         ctx.distinct.update(ex[1:])
     ctx.add_sample({"script": execs[0][:6]})
@@ -341,8 +369,21 @@ def run(ctx):
         ctx.extra.setdefault("known_finding_events", {})[nm] = {
             "count": len(fired[nm]), "refused": sum(1 for _, rc in fired[nm] if rc != 0),
             "misread": sum(1 for _, rc in fired[nm] if rc == 0)}
+    # the same scripts in a process whose locale is not "C" (lib/vlib/locale8.py): the specification does not mention
+    # locales, so it must accept these traces as well
+    from vlib import locale8
+    lenv = locale8.env("xx_XX")
+    if lenv:
+        coding = [ex for ex in execs if any(l.startswith(("ENC ", "DEC ", "BUILDF ")) for l in ex)]
+        others = [ex for ex in execs if ex not in coding]
+        lsl = coding + (others if thorough else others[:: max(1, len(others) // 60)])
+        pipeline.drive_and_validate(ctx, exe, lsl, SPEC_DIR, "UriTrace", "Trace.cfg", label="uri_locale", nbatch=16, env=lenv,
+                                    tlc_env={"VERIF_DEV_" + d: "1" for d in devs}, on_fired=on_fired)
+        locale8.note(ctx, "URI scripts (every coding line, a slice of the component scripts)", len(lsl))
+    else:
+        ctx.assumptions.append("locale family not run: localedef could not build the private locale")
     kinds = {}
-    for tp in sorted(glob.glob(os.path.join(ctx.outdir, "uri", "b*.clean.ndjson"))):
+    for tp in sorted(glob.glob(os.path.join(ctx.outdir, "uri", "b*.clean.ndjson")) + glob.glob(os.path.join(ctx.outdir, "uri_locale", "b*.clean.ndjson"))):
         for e in pipeline.read_trace(tp):
             if e["e"] not in ("Reset", "End"):
                 kinds[e["e"]] = kinds.get(e["e"], 0) + 1
